@@ -107,7 +107,7 @@ Map_Ret  == /\ FromMap /\ pc = "run" /\ seen = Used
 
 (* ------------------ AddHeaders / AddTrailers: nested loops over dest.Add ------------------ *)
 Add_Inner   == /\ op \in {"addh", "addt"} /\ pc = "run" /\ i <= Len(h) /\ j <= Len(h[i].vals)
-               /\ LET key == IF op = "addh" THEN Canon(h[i].name) ELSE h[i].name
+               /\ LET key == Canon(h[i].name)          \* both canonicalise the name (AddTrailers since /repo 2c8246b)
                   IN acc' = Put(acc, key, Get(acc, key) \o <<h[i].vals[j]>>)
                /\ j' = j + 1
                /\ UNCHANGED <<op, pre, h, pc, i, kv, seen, out>>
@@ -156,7 +156,7 @@ Laws == (pc = "done") =>
        /\ pre = EmptyF => Entries(out) = Entries(HdrToMD(h))                                          \* same meaning as the server-side conversion
   /\ (op = "addh" /\ pre = EmptyF) =>
        Entries(HdrToMD(SomeSeq(MapToHdr(out)))) = Entries(HdrToMD(h))          \* through http.Header and back
-  /\ (op = "addt") => \A x \in 1..Len(h) : h[x].vals # <<>> => h[x].name \in DOMAIN out
+  /\ (op = "addt") => \A x \in 1..Len(h) : h[x].vals # <<>> => Canon(h[x].name) \in DOMAIN out
 
 Terminates == <>(pc = "done")
 \* design checks do not need the construction history
